@@ -5,8 +5,10 @@ import (
 	"errors"
 	"fmt"
 	"io"
+	"os"
 	"regexp"
 	"runtime"
+	"runtime/debug"
 	"strings"
 	"sync"
 	"testing"
@@ -264,7 +266,17 @@ func (m *Sim) CloseBoth() {
 }
 
 // lock naming for the lock-order graph
-func (m *Sim) nameLock(p unsafe.Pointer) string {
+func (m *Sim) nameLock(p unsafe.Pointer) (name string) {
+	defer func() {
+		// the namer runs inside lock acquisitions of library goroutines: it must never take
+		// the execution down (an unnamed lock is only a cosmetic loss)
+		if r := recover(); r != nil {
+			name = ""
+			if os.Getenv("VERIF_DEBUG_NAMER") != "" {
+				fmt.Fprintf(os.Stderr, "NAMER-PANIC %v\n%s\n", r, debug.Stack())
+			}
+		}
+	}()
 	for i, a := range m.As {
 		if a == nil {
 			continue
@@ -287,7 +299,10 @@ func (m *Sim) nameLock(p unsafe.Pointer) string {
 		}
 		_ = pre
 	}
-	m.mu.Lock()
+	// (never wait for the harness mutex here: the caller is inside a lock acquisition)
+	if !m.mu.TryLock() {
+		return ""
+	}
 	seen := m.streamsSeen
 	m.mu.Unlock()
 	for _, s := range seen {
